@@ -1,3 +1,5 @@
+import gfapy
+
 class ToGFA2:
 
   @property
@@ -23,14 +25,24 @@ class ToGFA2:
       from_l = self._lastpos_of("from_segment")
       return [from_l - self.overlap.length_on_reference(), from_l]
     else:
-      return [0, self.overlap.length_on_reference()]
+      return [0, self._lastpos_if_segment_end("from_segment",
+                   self.overlap.length_on_reference())]
 
   @property
   def to_coords(self):
     """GFA2 positions of the alignment on the **to** segment."""
     self._check_overlap()
     if self.to_orient == "+":
-      return [0, self.overlap.length_on_query()]
+      return [0, self._lastpos_if_segment_end("to_segment",
+                   self.overlap.length_on_query())]
     else:
       to_l = self._lastpos_of("to_segment")
       return [to_l - self.overlap.length_on_query(), to_l]
+
+  def _lastpos_if_segment_end(self, field, pos):
+    """pos, as LastPos if it is known to be the length of the segment"""
+    try:
+      lastpos = self._lastpos_of(field)
+    except (gfapy.RuntimeError, gfapy.ValueError):
+      return pos
+    return lastpos if pos == lastpos else pos
